@@ -22,6 +22,9 @@ CH["C01"] = dict(level="exploration", design="3/C01", technique="deterministic s
 CH["C09"] = dict(level="exploration", design="3/C09", technique="deterministic simulation: sim disk with recorded writes and seeded read segmentation + reference FLV v1 parser/writer as invariant and peer",
    text="Seeded search over header flags x tag sequences with boundary sizes/timestamps x writer (library muxer or reference writer) x read segmentation of the sim disk (down to 1 byte). Invariant after every WriteHeader/WriteTag event: the durable bytes parse under a strict reference FLV v1 parser to exactly the tags written and equal the reference writer's bytes; demuxed tags equal written tags; clean EOF after the last tag. Sampling, not proof; the crash/torn-tail dimension is C08's.",
    note="Trusted: reference FLV parser/writer (ref/flv.go).")
+CH["C08"] = dict(level="fault_enumeration", design="3/C08", technique="deterministic simulation with fault injection: per sampled workload, every cut offset / read-call / write-call / scheduler-step fault position is executed against a fault-free baseline",
+   text="For each seeded workload (RTMP session of two real endpoints incl. handshake; FLV file; nesting of errors constructors) the fault-free run is recorded, then every position of one fault dimension is executed: cut at every byte offset, sticky sentinel read error at every read call (0 or >0 bytes alongside), sentinel write error at every write call (zero/partial/full acceptance), error-free short write at every write call, endpoint close at every scheduler step; FLV write faults are followed by reading the torn file. Oracle: the call in progress fails; errors.Cause is identical to the injected sentinel (io.EOF/io.ErrUnexpectedEOF for cuts, io.ErrShortWrite for short writes); returned items are exactly those whose last byte lies before the fault; message chain kept. Positions are exhaustive per workload, workloads are sampled.",
+   note="Trusted: baseline run of the same plan for byte offsets; injected errors are sticky. RTMP handshake region is sampled (boundaries +-2 and a stride) in 90% of workloads and exhaustive in 10%.")
 def main():
     import os
     extra = {}
